@@ -64,7 +64,7 @@ def _loop_roles(w):
 def r1_lock_pairing(run, w, sc):
   R1 = run.rule("C18-R1", "every lock added names the requiring cell and rides in the locks of the "
                 "dependency's work item; an interrupted item keeps its locks; locks are released "
-                "after every work item; each frame starts unlocked; single owner", floor=12)
+                "after every work item; each frame starts unlocked; single owner", floor=13)
   fn, cfg, p_items, pop, (v_node, v_rows, v_locks), sn, tr, h = _loop_roles(w)
   ev = h.name
   hn = {n.id for n in cfg.nodes if n.kind == "handler" and n.stmt is h}
@@ -220,7 +220,7 @@ def r1_lock_pairing(run, w, sc):
 def r2_cycle_flag(run, w, sc):
   R2 = run.rule("C18-R2", "`cycle` is (required and (node, row) in _locked_cells), is handed to "
                 "_recompute_one_cell, and makes it raise CircularRefError before any user code, "
-                "inside the region that turns exceptions into the cell's value", floor=6)
+                "inside the region that turns exceptions into the cell's value", floor=7)
   fn = sc.fn
   ev = sc.eval
   cy = kwarg(ev, "cycle", 3)
@@ -313,7 +313,7 @@ NO_STORED_ERRORS = {
 
 def r3_unwrapped(run, w):
   R3 = run.rule("C18-R3", "get_cell_value re-raises a stored CircularRefError itself, before the "
-                "generic CellError wrapping", floor=2)
+                "generic CellError wrapping", floor=4)
   fn = w.fn("column.BaseColumn.get_cell_value")
   cfg = fn.cfg
   wraps = [n for n in cfg.nodes if n.kind == "raise_stmt" and isinstance(n.stmt.exc, ast.Call) and
